@@ -450,9 +450,12 @@ func (p *planner) addTree(e *Entry, idx int) error {
 			if e.FI != nil && e.FI.Mode != 0 {
 				n.Perm = int64(e.FI.Mode & 0o7777)
 			}
-			if p.c.MTime != 0 {
+			switch {
+			case e.FI != nil && e.FI.MTime != 0:
+				n.MTime = e.FI.MTime // declared for the tree: holds for every file below it, like owner, group and mode
+			case p.c.MTime != 0:
 				n.MTime = p.c.MTime
-			} else {
+			default:
 				n.MTime = sn.MTime
 				if sn.NS >= 500000000 {
 					n.MTimeAlt = sn.MTime + 1
